@@ -318,6 +318,32 @@ func runC14(c *ctx) {
 			}
 		}
 	}
+	// systematic: every ordered pair of key expressions over items whose value member is an array with spare capacity (two
+	// groups that collect the same member must not share the backing store of the first item's array)
+	{
+		keys := []string{"g", "s", "\"lit\"", "$string(k)", "\"p\"", "g & s"}
+		for _, ln := range []int{1, 2, 3, 5} {
+			for _, extra := range []int{1, 3} {
+				arr := make([]interface{}, 4)
+				for i := range arr {
+					v := make([]interface{}, ln, ln+extra)
+					for j := range v {
+						v[j] = float64(10*i + j)
+					}
+					arr[i] = map[string]interface{}{"id": float64(i), "k": float64(i % 2), "g": []string{"p", "q"}[i%2], "s": []string{"x", "y", "x", "x"}[i], "v": v}
+				}
+				for _, k1 := range keys {
+					for _, k2 := range keys {
+						if k1 == k2 {
+							continue
+						}
+						c.diffEval("items{"+k1+": v, "+k2+": v}", map[string]interface{}{"items": arr}, "group/shared-array")
+						c.diffEval("${"+k1+": v, "+k2+": [v, id]}", arr, "group/shared-array")
+					}
+				}
+			}
+		}
+	}
 	// object functions
 	fprogs := []string{
 		"$keys($)^($)", "$count($keys($))", "$lookup($, \"a\")", "$lookup($, \"zz\")", "a = $lookup($, \"a\")",
